@@ -655,17 +655,15 @@ Fixpoint names_items (a : list text) : list item :=
   | n :: r => match r with [] => [T (tokc NAME n)] | _ => T (tokc NAME n) :: T COMMAt :: Sp :: names_items r end
   end.
 
-(* the separator before a lookup: a space between two numeric lookups (the repaired DotLookup.String) *)
-Definition dot_items (c : expr) (l : text) : list item :=
-  match c with
-  | EDot _ l' => if is_digits l' && is_digits l then [Sp; T DOTt] else [T DOTt]
-  | _ => [T DOTt]
-  end.
+(* the separator before a lookup: a space when a numeric lookup follows printed text that ends in a numeric lookup (the
+   repaired DotLookup.String); pc = the printed container *)
+Definition dot_items (pc : text) (l : text) : list item :=
+  if is_digits l && ends_numeric pc then [Sp; T DOTt] else [T DOTt].
 
 Fixpoint pitems (e : expr) : list item :=
   match e with
   | ECtxRef n => [T (tokc NAME (map lower n))]
-  | EDot c l => pitems c ++ dot_items c l ++ [T (lookup_tok l)]
+  | EDot c l => pitems c ++ dot_items (print lower printable c) l ++ [T (lookup_tok l)]
   | EIndex c l => pitems c ++ [T LB] ++ pitems l ++ [T RB]
   | ECall f ps =>
       pitems f ++ [T LP] ++
@@ -708,11 +706,11 @@ Proof.
   cbn [toks_of T]. rewrite IH. reflexivity.
 Qed.
 
-Lemma render_dot c l : render (dot_items c l) = dot_sep c l.
-Proof. unfold dot_items, dot_sep. destruct c; try reflexivity. destruct (is_digits lookup && is_digits l); reflexivity. Qed.
+Lemma render_dot pc l : render (dot_items pc l) = dot_sep pc l.
+Proof. unfold dot_items, dot_sep. destruct (is_digits l && ends_numeric pc); reflexivity. Qed.
 
-Lemma toks_dot c l : toks_of (dot_items c l) = [DOTt].
-Proof. unfold dot_items. destruct c; try reflexivity. destruct (is_digits lookup && is_digits l); reflexivity. Qed.
+Lemma toks_dot pc l : toks_of (dot_items pc l) = [DOTt].
+Proof. unfold dot_items. destruct (is_digits l && ends_numeric pc); reflexivity. Qed.
 
 (* (I) the printer model writes exactly the rendering of the items, and their tokens are ptoks *)
 Theorem render_pitems : forall e, render (pitems e) = print lower printable e.
